@@ -54,6 +54,18 @@ CLAIMED = {
              "crypto/sha256); SDK decimal parser as a parameter; staking bondedness as observed.",
         technique="Lean 4 proof (case analysis of the handler, uint64 wrap-around arithmetic by omega) + differential correspondence",
         ref="§7 C11"),
+    "C15": dict(
+        text="Lean 4 theorems over an executable model of the tokenfactory msg server (guard/effect per handler, executed atomically): "
+             "denom format/parse round trip and injectivity in the creator, creation only by the embedded creator and only once, admin "
+             "chain (creation or hand-over by the current admin only), supply of a denom changes only by the admin's Mint/Burn by exactly "
+             "the amount (step level and summed over any history without BurnNative of that denom), non-tf denoms are never minted, an "
+             "account is debited only by the denom admin's Burn of a tf denom or by its own BurnNative, rejected messages change "
+             "nothing. The BurnNative exception is proved as a counterexample theorem and recorded as a known finding. Correspondence on "
+             "the real msg server with the real bank keeper.",
+        note="Trusted: Lean kernel; harness; bank keeper (parameter); atomic message execution by baseapp. Known finding C15-burnNative-"
+             "holder: the literal property is violated by MsgBurnNative of tf denoms by non-admin holders.",
+        technique="Lean 4 proof (guard/effect case analysis, induction over histories) + differential correspondence",
+        ref="§7 C15"),
 }
 
 PENDING_REASON = "not claimed yet: model/proofs for this property are still being built (see DESIGN.md §9 build order)"
